@@ -399,6 +399,34 @@ class Run:
                 vals = list(g['vals'])
             elif (g.get('init') or {}).get('k') == 'str':
                 vals = list(g['init']['b']) + [0]
+            elif (g.get('init') or {}).get('k') == 'initlist' and g['init'].get('items') and all(isinstance(it, dict) and it.get('k') == 'initlist' for it in g['init']['items']) and g.get('_types') is not None:
+                # a constant table of plain structures ({ "amp", '&' }, ...): one record per row, fields in declaration order;
+                # string literals become constant C strings
+                at = T(g, g.get('t'))
+                et = T(g, at.get('el') or at.get('to')) if (at.get('el') or at.get('to')) else {}
+                rdef = self.prog.records.get(et.get('rec') or '')
+                if not rdef or not rdef.get('fields'):
+                    return None
+                vals = []
+                for i_, row in enumerate(g['init']['items']):
+                    rec = {}
+                    for fl, it in zip(rdef['fields'], row.get('items', [])):
+                        it_ = strip(it)
+                        while it_.get('k') in ('cast', 'paren'):
+                            it_ = strip(it_['e'])
+                        if it_.get('k') == 'str':
+                            sn = ('GS', qn, i_, fl['n'])
+                            self.bufs[sn] = list(it_['b']) + [0]
+                            rec[fl['n']] = ('P', sn, 0)
+                        elif const_val(it_) is not None:
+                            rec[fl['n']] = const_val(it_)
+                        else:
+                            return None
+                    if len(rec) != len(rdef['fields']):
+                        return None
+                    rn = 'grow:%s:%d' % (qn, i_)
+                    self.recs[rn] = rec
+                    vals.append(('R', rn))
             else:
                 return None
             n_ = T(g, g.get('t')).get('n') if g.get('_types') is not None else None
